@@ -103,6 +103,8 @@ def finish(res: Result, tier: str, t0: float, level_text: str = "",
         if f.ident() in known_ids:
             known_hits.append(f)
         else:
+            if os.environ.get("VERIF_NO_EVIDENCE"):
+                out_dir = Path("/tmp/verif_seed_out") / prop
             out_dir.mkdir(parents=True, exist_ok=True)
             rp = out_dir / f"{_slug(f.rule)}-{_slug(f.key)}.json"
             rp.write_text(json.dumps({
@@ -167,9 +169,10 @@ def finish(res: Result, tier: str, t0: float, level_text: str = "",
         "wall_s": round(wall, 3),
         "violations": len(violations),
     }
-    ev_dir = VERIF / "evidence"
-    ev_dir.mkdir(exist_ok=True)
-    (ev_dir / f"{prop}.json").write_text(json.dumps(evidence, indent=1))
+    if not os.environ.get("VERIF_NO_EVIDENCE"):      # (seed evaluation runs)
+        ev_dir = VERIF / "evidence"
+        ev_dir.mkdir(exist_ok=True)
+        (ev_dir / f"{prop}.json").write_text(json.dumps(evidence, indent=1))
 
     if not quiet:
         print(f"== {prop} [{tier}] {n_ok}/{n_obl} obligations discharged, "
